@@ -638,6 +638,16 @@ def parse_inst(text):
         tk.expect(',')
         pty, p = parse_typed_value(tk)
         a = dict(ty=ty, x=x, pty=pty, p=p)
+    elif op == 'atomicrmw':
+        # single-threaded program: a sequential read-modify-write
+        tk.accept('volatile')
+        aop = tk.next()[1]
+        pty, p = parse_typed_value(tk)
+        tk.expect(',')
+        ty, x = parse_typed_value(tk)
+        a = dict(aop=aop, pty=pty, p=p, ty=ty, x=x)
+    elif op == 'fence':
+        a = dict()
     elif op == 'getelementptr':
         tk.accept('inbounds')
         sty = parse_type(tk)
